@@ -114,16 +114,49 @@ Theorem C14_failure_leaves_state_unchanged : forall cfg s o e,
 Proof. exact failed_step_unchanged. Qed.
 Print Assumptions C14_failure_leaves_state_unchanged.
 
-(* readable everywhere: a read resolves every part through the store recorded on its row, so neither its
-   result nor the state depends on the class -> store configuration in force (true by construction of the
-   model; the executed correspondence is what ties this to ByName in the code) *)
-Theorem C14_read_ignores_configuration : forall cfg cfg' s k v,
-  step cfg s (ORead k v) = step cfg' s (ORead k v) /\
-  show_result (fst (step cfg s (ORead k v))) (ORead k v) None = show_read s k v.
+(* readable everywhere, in whatever KIND of store the parts live: GetObject streams without a transaction iff
+   every configured store is transaction-free capable, so for EVERY assignment of kinds to stores, every state
+   (hence every history and every class -> store configuration, remapped or not) and every list of part rows
+   the mode chosen is admissible for every store holding one of the parts ... *)
+Theorem C14_read_mode_admissible : forall kd ps,
+  forallb (part_mode_ok kd (tx_free_streaming kd)) ps = true.
+Proof. exact read_mode_admissible. Qed.
+Print Assumptions C14_read_mode_admissible.
+
+(* ... hence the read through the mode decision returns exactly the bytes the part rows are backed by: no
+   object becomes unreadable or different because of the kind of store it was routed or transitioned to *)
+Theorem C14_readable_in_every_store_kind : forall kd s k v,
+  read_k kd s k v = read s k v /\
+  (forall ps, read_parts_k kd s ps = read_parts s ps).
+Proof. intros. split; [apply read_k_eq | intros; apply read_parts_k_eq]. Qed.
+Print Assumptions C14_readable_in_every_store_kind.
+
+(* with store kinds: the transitioned version reads the same bytes before and after, whatever kinds the old and
+   the new store have (into and out of a transaction-bound store, by key or by version id) *)
+Theorem C14_transition_reads_same_any_kind : forall kd cfg s k v c im s' i r,
+  step cfg s (OTransition k v c im) = (s', None) ->
+  resolve (versions_of k (s_objs s)) v = Some i -> nth_error (versions_of k (s_objs s)) i = Some r ->
+  (forall p, In p (o_parts (v_obj r)) -> (p_id p < s_nextp s)%N) ->
+  (forall p q, In p (o_parts (v_obj r)) -> In q (o_parts (v_obj r)) -> p_id p = p_id q -> p_store p = p_store q) ->
+  read_k kd s' k v = read_k kd s k v.
+Proof. intros. rewrite !read_k_eq. eapply transition_reads_same; eauto. Qed.
+Print Assumptions C14_transition_reads_same_any_kind.
+
+(* the intersection matters: a mode decided from a single store (say the default one) is NOT admissible in general *)
+Theorem C14_single_store_mode_refuted :
+  exists kd p, part_mode_ok kd (negb (needs_tx kd 0)) p = false.
+Proof. exact single_store_mode_inadmissible. Qed.
+Print Assumptions C14_single_store_mode_refuted.
+
+(* reads never consult the class -> store configuration (true by construction of the model; tied to ByName by
+   the executed correspondence) *)
+Theorem C14_read_ignores_configuration : forall kd cfg cfg' s k v,
+  step cfg s (ORead k v) = step cfg' s (ORead k v) /\ show_result kd (fst (step cfg s (ORead k v))) (ORead k v) None = show_read kd s k v.
 Proof. intros. split; reflexivity. Qed.
 Print Assumptions C14_read_ignores_configuration.
 
 (* ---- non-trivial instances ---- *)
+Definition C14_kf : kinds := [false; false; false].
 Definition C14_cfg1 : config := [(B"GLACIER", 1%N)].
 Definition C14_cfg2 : config := [(B"GLACIER", 2%N); (B"STANDARD", 1%N)].
 (* two keys with identical content in store 1 share one deduplicated part *)
@@ -133,8 +166,8 @@ Example C14_ex_shared : show_counts C14_shared_state = B"0,1,0" /\ reg_get 0 (s_
 Proof. vm_compute. split; reflexivity. Qed.
 Example C14_ex_transition :
   let s' := fst (step C14_cfg1 C14_shared_state (OTransition (0, 0)%N VLatest B"STANDARD" IMNone)) in
-  show_read s' (0, 0)%N VLatest = B"5354414e44415244|7|1|1|0|s" /\
-  show_read s' (0, 1)%N VLatest = B"474c4143494552|7|2|2|1|s" /\ show_counts s' = B"1,1,0".
+  show_read C14_kf s' (0, 0)%N VLatest = B"5354414e44415244|7|1|1|0|s" /\
+  show_read C14_kf s' (0, 1)%N VLatest = B"474c4143494552|7|2|2|1|s" /\ show_counts s' = B"1,1,0".
 Proof. vm_compute. repeat split; reflexivity. Qed.
 (* the lifecycle case: a null version written while unversioned becomes noncurrent under a newer version with the
    SAME content (same ETag, one shared part); transitioning "null" changes the null row only *)
@@ -142,11 +175,11 @@ Definition C14_noncurrent_null : state :=
   run C14_cfg1 init [OPut (0, 0)%N None 7 1 1; OVersioning 0 Enabled; OPut (0, 0)%N None 7 2 2].
 Example C14_ex_null_noncurrent :
   let s' := fst (step C14_cfg1 C14_noncurrent_null (OTransition (0, 0)%N VNull B"GLACIER" (IMOrd 1))) in
-  show_read C14_noncurrent_null (0, 0)%N VNull = B"5354414e44415244|7|1|1|0|s" /\
+  show_read C14_kf C14_noncurrent_null (0, 0)%N VNull = B"5354414e44415244|7|1|1|0|s" /\
   reg_get 0 (s_reg C14_noncurrent_null) = 2%N /\
-  show_read s' (0, 0)%N VNull = B"474c4143494552|7|1|1|1|s" /\
-  show_read s' (0, 0)%N VLatest = B"5354414e44415244|7|2|2|0|s" /\
-  show_read s' (0, 0)%N (VOrd 1) = B"5354414e44415244|7|2|2|0|s".
+  show_read C14_kf s' (0, 0)%N VNull = B"474c4143494552|7|1|1|1|s" /\
+  show_read C14_kf s' (0, 0)%N VLatest = B"5354414e44415244|7|2|2|0|s" /\
+  show_read C14_kf s' (0, 0)%N (VOrd 1) = B"5354414e44415244|7|2|2|0|s".
 Proof. vm_compute. repeat split; reflexivity. Qed.
 (* remapped configuration: written under cfg1 (STANDARD -> store 0); under cfg2 STANDARD and STANDARD_IA... here
    GLACIER maps to store 2 and STANDARD to store 1: an object recorded in store 0 with class STANDARD that is
@@ -154,6 +187,14 @@ Proof. vm_compute. repeat split; reflexivity. Qed.
 Example C14_ex_remap_recorded_store :
   let s0 := run C14_cfg1 init [OPut (0, 2)%N None 5 0 0] in
   let s1 := fst (step C14_cfg2 s0 (OTransition (0, 2)%N VLatest B"STANDARD" IMNone)) in
-  show_read s0 (0, 2)%N VLatest = B"5354414e44415244|5|0|0|0|s" /\
-  show_read s1 (0, 2)%N VLatest = B"5354414e44415244|5|0|0|1|s".
+  show_read C14_kf s0 (0, 2)%N VLatest = B"5354414e44415244|5|0|0|0|s" /\
+  show_read C14_kf s1 (0, 2)%N VLatest = B"5354414e44415244|5|0|0|1|s".
+Proof. vm_compute. repeat split; reflexivity. Qed.
+(* mixed kinds: default = filesystem, store 1 = SQL part store; a multipart object in GLACIER lives in the
+   transaction-bound store, a ranged read crosses its parts, and a transition by version id moves it out *)
+Example C14_ex_mixed_kinds :
+  let kd := [false; true; false] in
+  let s0 := run C14_cfg1 (fst (step C14_cfg1 init (OVersioning 0 Enabled))) [OMultipart (0, 0)%N (Some B"GLACIER") [1; 2]%N] in
+  let s1 := fst (step C14_cfg1 s0 (OTransition (0, 0)%N (VOrd 0) B"STANDARD" IMStar)) in
+  tx_free_streaming kd = false /\ show_read kd s0 (0, 0)%N VLatest = B"474c4143494552|1.2|0|0|1.1|m2" /\ show_range kd s0 (0, 0)%N VLatest [(20, 40); (0, 1000)]%N = B"1@20+8.2@0+12,1@0+28.2@0+33" /\ show_read kd s1 (0, 0)%N (VOrd 0) = B"5354414e44415244|1.2|0|0|0.0|m2".
 Proof. vm_compute. repeat split; reflexivity. Qed.
